@@ -63,6 +63,15 @@ def run(ck, m):
     ck.ob("R1", cl, bool(effects) and not ung, f"close() does work when the iterator is already closed (idempotence): {[short(o, 40) for o in ung]}", stmt="RenderIterator.close: everything guarded by not self._closed")
     flag = [st for st in effects if norm(st) == "self._closed = True"]
     ck.ob("R1", cl, len(flag) == 1 and all(e.lineno <= flag[0].lineno for e in effects), "`self._closed = True` must be the last effect of close()", stmt="RenderIterator.close: _closed set last")
+    # ... and only once the data has been dealt with: on EVERY path (exceptional ones included) that reaches the store of the flag, the decision to
+    # finalize has been taken before it. A flag set in a `finally` marks an iterator closed whose close() failed half-way: all later close() calls
+    # (exhaustion, error, __del__) are no-ops and the owned render data is never finalized.
+    gcl = CFG(cl)
+    flag_nodes = [n_ for n_ in gcl.nodes if n_.kind == "stmt" and n_.ast is not None and norm(n_.ast) == "self._closed = True"]
+    dec_ = lambda n_: n_.ast is not None and n_.kind in ("test", "stmt") and "self._finalize_data" in norm(getattr(n_.ast, "test", n_.ast) if n_.kind == "test" else n_.ast)
+    for fnode in flag_nodes:
+        ck.ob("R1", fnode.ast, gcl.dominated_by(fnode, dec_), "`self._closed = True` can be reached without the render data having been dealt with (an exception in the generator's close() or in finalize() "
+              "leads to it): the iterator is then marked closed while it still owns un-finalized data, and no later close() will release it", stmt="RenderIterator.close: _closed set only after the finalize decision, on every path")
     fz = [c for c in body_walk(cl) if isinstance(c, ast.Call) and norm(c) == "self._render_data.finalize()"]
     ck.ob("R1", cl, len(fz) == 1 and "self._finalize_data" in econds(cl, fz[0]),
           "close() must finalize the data exactly once and only under `self._finalize_data`", stmt="RenderIterator.close: finalize under _finalize_data")
